@@ -165,6 +165,16 @@ CHECKS = {
         "hardware and Z3 ground evaluation at set-up. Known finding: folding ignores non-RNE rounding modes (exact case lists).",
         "DESIGN.md §2 C02",
     ),
+    "C03": (
+        "exploration",
+        "bounded-exhaustive enumeration over a string / index alphabet (E2): every operation x argument tuple, run folded and through the Z3 translation with code-point literals (ground evaluation); SMT-LIB reference functions",
+        "concat, substr, replace, len, contains, prefix/suffix, index-of, to-int, from-int, ==, != over all strings of "
+        "length <= 2 over a core alphabet of regex metacharacters, backslash, NUL, newline, non-ASCII and astral "
+        "characters plus listed specials (quick 48 strings, thorough 142) and indices {0,1,2,3,|s|,|s|+1,2^63,2^64-1}; "
+        "literal transport of every string; equality of equal strings with different annotations.",
+        "Exhaustive over the stated alphabets only. strref is self-tested against Z3's own string functions at set-up.",
+        "DESIGN.md §2 C03",
+    ),
 }
 
 NOT_YET = "check not built yet in this session (planned; see DESIGN.md §2)"
